@@ -288,7 +288,10 @@ def _as_base_exponent(f):
             pair = _as_base_exponent(base)
             if pair is not None:
                 base, inner = pair
-                return base, inner * exponent._value
+                # (b**p)**q == b**(p*q) for a base of unknown sign only if q
+                # is an integer, e.g. (b**2)**0.5 is abs(b), not b
+                if inner == 1 or exponent._value == int(exponent._value):
+                    return base, inner * exponent._value
         return None
     elif isinstance(f, Division):
         numerator, denominator = f.ufl_operands
